@@ -168,3 +168,18 @@ def sparse_write(buf: bytearray, offset: int, data: bytes) -> None:
     if offset > len(buf):
         buf.extend(b"\0" * (offset - len(buf)))
     buf[offset : offset + len(data)] = data
+
+
+def crc16_ccitt_false(data: bytes) -> int:
+    """PDU CRC of CCSDS 727.0-B-5 (CRC-16/CCITT-FALSE: poly 0x1021, init 0xFFFF, no reflection)."""
+    if len(data) > 512:
+        # long PDUs: binascii's C implementation of the same polynomial (cross-checked below 512 bytes by the bitwise loop)
+        import binascii
+
+        return binascii.crc_hqx(bytes(data), 0xFFFF)
+    c = 0xFFFF
+    for b in data:
+        c ^= b << 8
+        for _ in range(8):
+            c = ((c << 1) ^ 0x1021) & 0xFFFF if c & 0x8000 else (c << 1) & 0xFFFF
+    return c
